@@ -12,7 +12,8 @@ PROPS = {
                 "non-trivial = some row or the reference carries a non-A/C/G/T symbol; distinct = distinct (ref, rows, mode)",
     },
     "C17": {
-        "streams": {"C17": (2000, 30000)},
+        "cli": True,
+        "streams": {"C17": (2000, 30000), "C17var": (300, 4000)},
         "thorough_seeds": 3,
         "rule": "the finite tables are decided outright by the kernel on the regenerated dictionaries (3375 codons, 32 characters); "
                 "the stream runs alphabet.Translate (strict and lenient), Complement, ReverseComplement and the FastaRecord / "
@@ -20,6 +21,7 @@ PROPS = {
                 "lengths not divisible by 3); non-trivial = the sequence contains a non-A/C/G/T symbol",
     },
     "C16": {
+        "cli": True,
         "streams": {"C16": (3000, 60000), "C16fuzz": (0, 40)},
         "thorough_seeds": 3,
         "shrink": True,
@@ -111,8 +113,10 @@ PROPS = {
     },
     "C02": {
         "cli": True,
-        "extra_imports": ["Gofasta.Lemmas.PairSingle", "Gofasta.Lemmas.PairSpec"],
-        "extra_theorems": ["Gofasta.Lemmas.PairSpec.specPair_lossless", "Gofasta.Lemmas.PairSpec.specPair_skip_insertions",
+        "extra_imports": ["Gofasta.Lemmas.PairSingle", "Gofasta.Lemmas.PairSpec", "Gofasta.Lemmas.PairMulti"],
+        "extra_theorems": ["Gofasta.Lemmas.PairMulti.blockToSeqPair_eq_specPair", "Gofasta.Lemmas.PairMulti.multi_ref_lossless", "Gofasta.Lemmas.PairMulti.multi_lengths",
+                           "Gofasta.Lemmas.PairMulti.multi_gap_count", "Gofasta.Lemmas.PairMulti.multi_skip_insertions", "Gofasta.Lemmas.PairMulti.toPairAlign_keepIns_spec",
+                           "Gofasta.Lemmas.PairSpec.specPair_lossless", "Gofasta.Lemmas.PairSpec.specPair_skip_insertions",
                            "Gofasta.Lemmas.PairSpec.specPair_lengths", "Gofasta.Lemmas.blockToSeqPair_single", "Gofasta.Lemmas.single_ref_lossless", "Gofasta.Lemmas.single_lengths",
                            "Gofasta.Lemmas.single_gap_count", "Gofasta.Lemmas.walk_keepRefCols", "Gofasta.Lemmas.single_skip_insertions"],
         "streams": {"C02": (500, 10000)},
